@@ -1832,6 +1832,21 @@ pub fn long_streams() -> Vec<(String, String)> {
         let empties = ";".repeat(n);
         v.push((format!("empty-params{}", n), format!("\x1b[{}3Hq", empties)));
     }
+    // beyond "generous" fixed capacities (1024 / 4096 / 65536 entries or bytes)
+    for n in [1023usize, 1024, 1025, 1100, 4096, 4097, 5000, 65537] {
+        let list: Vec<String> = (1..=n).map(|i| format!("{}", i % 10)).collect();
+        for f in ['H', 'm'] {
+            v.push((format!("params{}{}", n, f), format!("\x1b[{}{}x", list.join(";"), f)));
+        }
+        let mut z = vec!["0"; n - 3];
+        z.extend(["1", "4", "7"]);
+        v.push((format!("sgr-tail{}", n), format!("\x1b[{}mX", z.join(";"))));
+    }
+    for l in [65535usize, 65536, 65537, 70000, 300000] {
+        v.push((format!("osc-ascii{}", l), format!("\x1b]2;{}\x07y", "a".repeat(l))));
+        v.push((format!("osc-cjk{}", l), format!("\x1b]0;{}\x1b\\y", "\u{65e5}".repeat(l / 3 + 1))));
+        v.push((format!("text{}", l), "abcdefghij".repeat(l / 10)));
+    }
     v.push(("sgr-17".into(), "\x1b[0;38;2;255;128;0;48;2;0;0;64;1;3;4;5;7;9mX".into()));
     for l in [255usize, 256, 1022, 1023, 1024, 1025, 2047, 2048, 4095, 4096, 4097, 10000] {
         for (intro, term) in [("\x1b]", "\x07"), ("\u{9d}", "\u{9c}"), ("\x1b]", "\x1b\\")] {
@@ -1860,7 +1875,7 @@ pub fn long_streams() -> Vec<(String, String)> {
 /// Long byte streams with ill-formed UTF-8 (every ill-formed byte becomes a three-byte U+FFFD).
 pub fn long_byte_streams() -> Vec<(String, Vec<u8>)> {
     let mut v = Vec::new();
-    for l in [1000usize, 1367, 4096, 4100, 6000, 10000] {
+    for l in [1000usize, 1367, 4096, 4100, 6000, 10000, 21846, 65536, 65537, 70000, 200000] {
         let pat: Vec<u8> = (0..l).map(|i| [0x41u8, 0xe9, 0x42, 0xff, 0x20, 0xc3, 0xa9, 0x80][i % 8]).collect();
         v.push((format!("latin1-ish{}", l), pat));
         v.push((format!("all-ff{}", l), vec![0xffu8; l]));
